@@ -62,6 +62,7 @@ type Exec struct {
 	nextBefore string
 	elemRange map[string]string
 	batch int
+	Prop string
 	selfVal *Value
 	batchCtr int
 	forks int
@@ -251,9 +252,13 @@ func (x *Exec) oblige(st *State, kind, label string, props []string, goal, where
 		o.Path = st.trace[:len(st.trace):len(st.trace)]
 	}
 	x.obls = append(x.obls, o)
-	// after checking, the fact may be assumed on this path (quantified facts are not
-	// added: they only make later queries harder)
-	if !strings.Contains(goal, "(forall ") && !strings.Contains(goal, "(exists ") {
+	// After a check the fact may be assumed on the rest of the path, but only
+	// where that is semantically justified: a panic site that did not panic, or a
+	// precondition / invariant that this very run checks (never a goal that is
+	// filtered out of the current property, and never goals at the return).
+	// Quantified facts are not added: they only make later queries harder.
+	justified := kind == "safe" || ((strings.HasPrefix(kind, "pre@") || strings.HasPrefix(kind, "assert@") || strings.HasPrefix(kind, "loop")) && hasProp(props, x.Prop))
+	if justified && !strings.Contains(goal, "(forall ") && !strings.Contains(goal, "(exists ") {
 		st.assume(goal)
 	}
 }
@@ -855,9 +860,9 @@ func (x *Exec) run(st *State) {
 			ct := x.term(c)
 			st2 := st.clone()
 			st.assume(ct)
-			st.note("%s: %s", x.P.Pos(instrPos(ins)), "then")
+			st.note("%s b%d(%s): %s", x.P.FuncName(fr.Fn), fr.Block.Index, fr.Block.Comment, "then")
 			st2.assume(not(ct))
-			st2.note("%s: %s", x.P.Pos(instrPos(ins)), "else")
+			st2.note("%s b%d(%s): %s", x.P.FuncName(fr.Fn), fr.Block.Index, fr.Block.Comment, "else")
 			b0, b1 := fr.Block.Succs[0], fr.Block.Succs[1]
 			x.forks++
 			prune := x.forks > 24 // only functions with many branches pay for feasibility checks
